@@ -224,6 +224,36 @@ class C01(Profile):
         check_all_arrays(run, "end")
 
 
+class C13(Profile):
+    prop = "C13"
+    name = "C13"
+    weights = {"create_block": 2, "create_group": 2, "create_array": 2, "create_tag": 2, "create_mtag": 1,
+               "create_source": 9, "create_section": 9, "set_metadata": 7, "link_append": 7, "del_metadata": 1,
+               "link_remove": 1, "delete": 2, "set_attr": 2, "tree_find": 10, "tree_parent": 10,
+               "tree_referring": 7, "restart": 3}
+    owned = ("tree_find", "tree_parent", "tree_referring")
+    reopen_introspect = False
+    never_off = ("restart", "create_section", "create_source", "tree_find", "tree_parent", "tree_referring")
+    late_ops = ("delete", "link_remove", "del_metadata")
+    build_fraction = 0.5
+
+    def tune_knobs(self, k, rng):
+        k["names"] = list(P.NAMES_TREE)[:rng.randint(2, 3)] + (["w"] if rng.random() < 0.5 else [])
+        k["dup_rate"] = 0.02
+        k["max_blocks"] = rng.randint(1, 3)
+        k["max_branch"] = rng.randint(2, 3)
+        k["max_depth"] = rng.randint(2, 4)
+        k["max_per"] = 3
+        k["dtypes"] = ["float64"]
+        k["max_extent"] = 2
+        k["set_kinds"] = ["section", "source"]
+        k["delete_kinds"] = ["source", "section", "array", "tag"]
+        k["link_owner_kinds"] = ["group", "array", "tag", "mtag"]
+        k["n_ops"] = rng.randint(15, 50)
+        k["walk_every"] = P.pick(rng, [2, 5, 0])
+        k["vias"] = [0, 1, 2, 3, 4, 4, 5, 5, 6, 7]
+
+
 PROFILES = {}
 
 
@@ -242,3 +272,4 @@ register(C03())
 register(C04())
 register(C05())
 register(C01())
+register(C13())
